@@ -231,7 +231,17 @@ impl C05 {
             let expect_bits = layout(reduced, w, big);
             let (_placed, all) = place(&expect_bits, off, &mut rng);
             let signed = c.signed;
-            let ord = if big { "big" } else { "little" };
+            // the session byte order is the variable big? : set by the words big / little, by a history of both, or by a
+            // plain store
+            let ord = match rng.below(5) {
+                0 => if big { "1 ! big?" } else { "0 ! big?" },
+                1 => if big { "little big" } else { "big little" },
+                2 => if big { "little 1 ! big?" } else { "big 0 ! big?" },
+                _ => if big { "big" } else { "little" },
+            };
+            if ord.contains('!') {
+                obs.count("byte_order_set_by_store");
+            }
             // generic width words
             if signed || w <= 127 {
                 let word = if signed { "int" } else { "uint" };
